@@ -203,3 +203,7 @@ Lemma map_agree {S M M'} (p p' : S -> bytes -> step N S M err) (g : M -> M') :
 Proof.
   intros H s x NF. rewrite H; [reflexivity|]. intros e E. rewrite E in NF. eapply NF. reflexivity.
 Qed.
+
+Lemma map_never_fails {S M M'} (p : S -> bytes -> step N S M err) (g : M -> M') :
+  (forall s x e, p s x <> Fail e) -> forall s x e, step_map g (p s x) <> Fail e.
+Proof. intros H s x e E. destruct (p s x) eqn:P; try discriminate. cbn in E. now apply H in P. Qed.
